@@ -287,6 +287,16 @@ func (g *gen) bigLists() {
 		s.OpSwap(ps, g.outputs(in-f, env.ActiveKeysetId()))
 	}
 	s.OpCheckState(all(), []string{"pending", "pending", "pending", "pending", "pending", "pending"})
+	// list lengths that are exact multiples of the batch sizes a storage layer might look lists up in (SQLite's
+	// historical limit of 999 bound variables, powers of two, round numbers): seeded change C06-7 panicked on an EMPTY
+	// trailing batch when the length was a multiple of 999
+	qs := all()
+	for _, k := range []int{512, 999, 1000, 1024, 1998, 2000} {
+		if len(qs) >= k {
+			s.OpCheckState(qs[:k], []string{"pending", "pending", "pending", "pending", "pending", "pending"})
+			s.c.Hist("corpus", fmt.Sprintf("state check of exactly %d Ys", k))
+		}
+	}
 	s.c.Hist("corpus", "long request lists")
 }
 
